@@ -95,6 +95,19 @@ func checkC04(c *oracleCtx, su parseSetup, src string) {
 			c.violation("transparency-context", "final context differs", input)
 			return
 		}
+		// one builder, several parsers: the second and third parser built from the same builder behave like the first
+		for _, k := range []int{1, 2} {
+			su2 := su
+			su2.rebuild = k
+			again := runParse(su2, src)
+			a := c04Summarise(again)
+			if a.tree != w.tree || a.errs != w.errs || strings.Join(again.trace, ",") != strings.Join(with.trace, ",") ||
+				strings.Join(again.tokTrace, ",") != strings.Join(with.tokTrace, ",") {
+				c.violation("rebuild-differs", fmt.Sprintf("parser number %d built from the same builder behaves differently (tree, errors or interceptor order) %s", k+1,
+					firstDiff(w.tree+"|"+strings.Join(with.trace, ","), a.tree+"|"+strings.Join(again.trace, ","))), input)
+				return
+			}
+		}
 		// (d) a single re-entrant interceptor
 		re := runParse(parseSetup{flags: su.flags, ops: su.ops, install: su.install, exprI: []string{"r0"}}, src)
 		if t := stmtListStr(re.prog.Statements); t != b.tree || errsStrB(re.errs) != b.errs {
